@@ -4,23 +4,45 @@ from __future__ import annotations
 import sys
 
 _CACHES: list | None = None
+_NMODS = -1
+
+
+def _import_all():
+    import typelib  # noqa: F401
+    import typelib.api  # noqa: F401
+    import typelib.binding  # noqa: F401
+    import typelib.codecs  # noqa: F401
+    import typelib.ctx  # noqa: F401
+    import typelib.graph  # noqa: F401
+    import typelib.marshals  # noqa: F401
+    import typelib.py.classes  # noqa: F401
+    import typelib.py.future  # noqa: F401
+    import typelib.py.inspection  # noqa: F401
+    import typelib.py.refs  # noqa: F401
+    import typelib.serdes  # noqa: F401
+    import typelib.unmarshals  # noqa: F401
 
 
 def find_caches(refresh: bool = False) -> list:
-    global _CACHES
-    if _CACHES is None or refresh:
+    """Every object with cache_clear/cache_info reachable as an attribute of a loaded typelib module.
+    Recomputed whenever the set of loaded typelib modules changed (never trust a list computed too early)."""
+    global _CACHES, _NMODS
+    _import_all()
+    mods = [(n, m) for n, m in list(sys.modules.items()) if (n == "typelib" or n.startswith("typelib.")) and m is not None]
+    if _CACHES is None or refresh or len(mods) != _NMODS:
         seen: dict[int, object] = {}
-        for modname, mod in list(sys.modules.items()):
-            if modname == "typelib" or modname.startswith("typelib."):
-                for v in list(vars(mod).values()):
-                    if hasattr(v, "cache_clear") and hasattr(v, "cache_info"):
-                        seen[id(v)] = v
+        for _, mod in mods:
+            for v in list(vars(mod).values()):
+                if hasattr(v, "cache_clear") and hasattr(v, "cache_info"):
+                    seen[id(v)] = v
         _CACHES = list(seen.values())
+        _NMODS = len(mods)
+        assert len(_CACHES) >= 40, f"only {len(_CACHES)} typelib caches found - the cold state would not be cold"
     return _CACHES
 
 
 def clear_all() -> int:
-    """Clear all typelib memo caches and the slotted() re-entrancy guard."""
+    """Clear all typelib memo caches, the slotted() re-entrancy guard and typing's own alias caches."""
     cs = find_caches()
     for c in cs:
         c.cache_clear()
